@@ -222,6 +222,22 @@ for _h, _ht in _HEADERS.items():
         c("future_import_header_%s_%s" % (_h, _n), _ht + _nt)
 
 
+# a statement that some rule removes as the ONLY statement of every kind of block (family added after the seeded change
+# C03-remove-nodes-pass-only-for-statements: an emptied except / case body got no 'pass')
+_SOLE_BLOCKS = {
+    "if": "if cond:\n    {S}\n", "else": "if cond:\n    other = 1\nelse:\n    {S}\n", "elif": "if cond:\n    other = 1\nelif cond2:\n    {S}\n",
+    "for": "for item in seq:\n    {S}\n", "while": "while cond:\n    {S}\n", "with": "with ctx:\n    {S}\n", "def": "def fn(json=None):\n    {S}\n",
+    "try": "try:\n    {S}\nexcept ValueError:\n    other = 1\n", "except": "try:\n    other = 1\nexcept ValueError:\n    {S}\n",
+    "except_star": "try:\n    other = 1\nexcept* ValueError:\n    {S}\n", "finally": "try:\n    other = 1\nfinally:\n    {S}\n",
+    "try_else": "try:\n    other = 1\nexcept ValueError:\n    other = 2\nelse:\n    {S}\n", "for_else": "for item in seq:\n    other = 1\nelse:\n    {S}\n",
+    "case": "match value:\n    case 1:\n        {S}\n    case _:\n        other = 2\n", "class": "class Holder:\n    {S}\n",
+    "nested_except": "def fn(json=None):\n    try:\n        other = 1\n    except ValueError:\n        {S}\n    return json\n",
+}
+for _b, _bt in _SOLE_BLOCKS.items():
+    c("sole_statement_duplicate_import_in_%s" % _b, "import json\nprint(json)\n" + _bt.replace("{S}", "import json"))
+    c("sole_statement_pointless_in_%s" % _b, "import json\nprint(json)\n" + _bt.replace("{S}", "1 + 1"))
+
+
 @functools.lru_cache(maxsize=None)
 def repo_examples():
     with open(os.path.join(HERE, "corpus", "repo_examples.json")) as f:
